@@ -72,6 +72,48 @@ class _Textwrap:
         return [ii + line]
 
 
+    def fill(self, text, width=70, **kw):
+        if not isinstance(text, SymStr):
+            return self._real.fill(text, width, **kw)
+        lines = self.wrap(text, width, **kw)
+        out = ''
+        for i, ln in enumerate(lines):
+            out = out + ('\n' if i else '') + ln
+        return out
+
+    def TextWrapper(self, width=70, **kw):
+        return _Wrapper(self, width, kw)
+
+
+class _Wrapper:
+    """What textwrap.TextWrapper(...) gives inside the module under test: the
+    real object for plain strings, the contract stub for symbolic text."""
+
+    def __init__(self, mod, width, kw):
+        self._mod = mod
+        self._real = mod._real.TextWrapper(width=width, **kw)
+        self.width = width
+        self._kw = kw
+
+    def __getattr__(self, name):
+        return getattr(self._real, name)
+
+    def _args(self):
+        kw = {k: self._kw[k] for k in ('initial_indent', 'subsequent_indent')
+              if k in self._kw}
+        return kw
+
+    def wrap(self, text):
+        if not isinstance(text, SymStr):
+            return self._real.wrap(text)
+        return self._mod.wrap(text, self.width, **self._args())
+
+    def fill(self, text):
+        if not isinstance(text, SymStr):
+            return self._real.fill(text)
+        return self._mod.fill(text, self.width, **self._args())
+
+
 class _Warnings:
     def warn(self, *a, **k):
         pass
@@ -84,8 +126,14 @@ class _Warnings:
 def setup():
     from oslo_policy import generator
     shims.install_parser_shims()
-    generator.textwrap = _Textwrap()
+    # (the loader has bound the stub already wherever generator imports
+    # textwrap -- shims.TEXTWRAP_FACTORY below; this covers a plain import)
+    if not isinstance(getattr(generator, 'textwrap', None), _Textwrap):
+        generator.textwrap = _Textwrap()
     generator.warnings = _Warnings()
+
+
+shims.TEXTWRAP_FACTORY = lambda real: _Textwrap()
 
 
 def _z(c):
@@ -213,11 +261,7 @@ def run_sample(ctx, kind, dlen, rlen, oplen, exclude):
     longd = policy.RuleDefault('svc:a_long-check.2', long_cs,
                                description='long check string')
     policies = {'b-section': [default, longd], 'a-section': [other]}
-    parts = list(generator._sort_and_format_by_section(
-        policies, 'yaml', exclude_deprecated=exclude))
-    text = ''
-    for p in parts:
-        text = text + p
+    text = _sample_text(generator, policies, 'yaml', exclude)
     expected = ['#"%s": "%s"' % (d.name, d.check_str)
                 for d in (other, default, longd)]
     row = {'kind': kind, 'exclude_deprecated': exclude}
@@ -258,8 +302,7 @@ def run_sample(ctx, kind, dlen, rlen, oplen, exclude):
     ctx.require(p2 is None, 'sample:deployed-sample-breaks-enforce',
                 detail=dict(row, problem=p2))
     # -- JSON sample -----------------------------------------------------------
-    jparts = list(generator._sort_and_format_by_section(policies, 'json'))
-    jtext = '{\n    ' + ',\n    '.join(jparts) + '\n}\n'
+    jtext = _sample_text(generator, policies, 'json', False)
     try:
         jl = json.loads(jtext)
     except Exception as exc:
@@ -281,6 +324,49 @@ def run_sample(ctx, kind, dlen, rlen, oplen, exclude):
         ctx.require(got == exp, 'sample:json-with-empty-namespace',
                     key='sample:json-with-empty-namespace:' + layout,
                     detail=dict(row, layout=layout, got=repr(got)[:300]))
+
+
+class _Capture:
+    """Stands in for sys.stdout: takes what the tool writes without turning
+    it into bytes (the pieces may be symbolic strings)."""
+
+    def __init__(self):
+        self.parts = []
+
+    def write(self, s):
+        self.parts.append(s)
+
+    def writelines(self, seq):
+        self.parts.extend(seq)
+
+    def flush(self):
+        pass
+
+    def text(self):
+        out = ''
+        for p in self.parts:
+            out = out + p
+        return out
+
+
+def _sample_text(generator, policies, fmt, exclude):
+    """The whole sample as oslopolicy-sample-generator writes it, through
+    the real generator._generate_sample (its output file replaced by a
+    collector, the registered policies supplied as the repository's own
+    tests do)."""
+    import sys
+    from unittest import mock
+    cap = _Capture()
+    saved = sys.stdout
+    with mock.patch('oslo_policy.generator.get_policies_dict') as gp:
+        gp.return_value = policies
+        sys.stdout = cap
+        try:
+            generator._generate_sample(list(policies), None, fmt,
+                                       exclude_deprecated=exclude)
+        finally:
+            sys.stdout = saved
+    return cap.text()
 
 
 _REGEN = {}
